@@ -147,6 +147,9 @@ class WebSocketResponse(StreamResponse, Generic[_DecodeText]):
     def _on_data_received(self) -> None:
         if self._heartbeat is None or self._need_heartbeat_reset:
             return
+        if self._closed or self._closing:
+            # The heartbeat was cancelled for good; do not re-arm it.
+            return
         loop = self._loop
         assert loop is not None
         # Coalesce multiple chunks received in the same loop tick into a single
